@@ -476,6 +476,17 @@ func Monitor(rc *RunCtx, l *Ledger, pop *Population, o *Op, r *OpResult, step in
 			if dt == DomAttester || dt == DomProposer {
 				rc.Violate("C05", "generic-endpoint-slashable-domain", fmt.Sprintf("%s position %d signed under domain type %x", o, i, dt), step)
 			}
+			// ... nor is it a signature over what ANOTHER position of the same request asked for under a slashable domain
+			// (verdict of one position, payload of another).
+			for j := range o.Entries {
+				ej := &o.Entries[j]
+				if j == i || len(ej.Domain) != 32 || len(ej.Data) != 32 {
+					continue
+				}
+				if vt := domType(ej.Domain); (vt == DomAttester || vt == DomProposer) && VerifySig(a.PubKey, r.Sigs[i], ej.Data, ej.Domain) {
+					rc.Violate("C05", "generic-signature-valid-under-slashable-domain", fmt.Sprintf("%s position %d: the signature returned verifies under %s for the root and domain (type %x) of position %d", o, i, a.KName, vt, j), step)
+				}
+			}
 			// What a verifier sees is the 64 signed bytes, read as root then domain, whatever the lengths of the two fields were.
 			if len(e.Data)+len(e.Domain) == 64 && len(e.Domain) != 32 {
 				buf := append(append([]byte{}, e.Data...), e.Domain...)
